@@ -16,6 +16,12 @@ LAYERS = [
 def gen(rng, i):
     depth = rng.choice([1, 1, 2, 2, 3, 4])
     layers = [dict(rng.choice(LAYERS)) for _ in range(depth)]
+    if i % 6 == 0:
+        # retry layers on top of each other (possibly with other layers between): a cancel that arrives while the
+        # INNER layer is between two attempts must still reach it
+        mid = [dict(rng.choice(LAYERS)) for _ in range(rng.choice([0, 1, 1, 2]))]
+        layers = [{"t": "retry", "max": 3, "sleep": rng.choice([200, 400])}] + mid + \
+                 [{"t": "retry", "max": rng.choice([2, 3]), "sleep": 100}]
     n = rng.choice([1, 2, 3])
     subs = []
     for j in range(n):
